@@ -68,6 +68,7 @@ var c04Configs = []lab.Cfg{
 	{DataPad: 7, IndexPad: 5, Sorted: true},
 	{MaxCid: 36, StoreID: true, WholeCID: true},
 	{MaxCid: math.MaxUint64}, // "no limit"
+	{MaxCid: 35},             // one byte short of A, A', B, C, IA: their multihash (34 bytes) fits, their CID does not
 	{IndexPad: 1 << 63},      // an index padding no file can hold: Finalize cannot succeed, and is terminal all the same
 	// thorough extras
 	{V1: true, WholeCID: true},
@@ -506,6 +507,11 @@ func c04RunHistory(t *mon.T, api string, cfg lab.Cfg, a c04Alpha, hist []string,
 			err := st.Close()
 			if state != stClosed {
 				_, herr := st.Has(a.blocks["B"].Cid)
+				if state == stOpen && !cfg.V1 && err != nil && herr != nil {
+					// Close on a CARv2 store that was not finalized is refused (an error, by design): a refused
+					// operation changes nothing — the store is still open, still writable, still finalizable
+					viol("Close/refused-but-the-store-is-closed", "Close returned %v, and the store then answers Has with %v", err, herr)
+				}
 				if err == nil || herr != nil {
 					if state == stOpen && !cfg.V1 && err == nil {
 						viol("Close/unfinalized-accepted", "Close succeeded on a CARv2 store that was never finalized")
@@ -609,7 +615,7 @@ func runC04(t *mon.T, raw json.RawMessage) {
 
 func genC04(g *mon.G) {
 	a := c04Alphabet()
-	ncfg := g.Pick(12, len(c04Configs))
+	ncfg := g.Pick(13, len(c04Configs))
 	depth := g.Pick(2, 3) // histories of length ≤ 1+depth
 	for _, api := range []string{"blockstore", "storage", "blockstore-file", "storage-notrunc"} {
 		for ci := 0; ci < ncfg; ci++ {
